@@ -254,3 +254,10 @@ impl<S: Scheduler> Scheduler for PortfolioStoppableScheduler<S> {
         self.scheduler.next_u64()
     }
 }
+
+/// Verification hook: build the (private) stop-flag wrapper that `PortfolioRunner` puts around every
+/// member scheduler, so that a harness can drive it directly. Contains no logic of its own.
+#[cfg(feature = "verif-hooks")]
+pub fn verif_portfolio_stoppable<S: Scheduler>(scheduler: S, stop_signal: Arc<AtomicBool>) -> impl Scheduler {
+    PortfolioStoppableScheduler { scheduler, stop_signal }
+}
